@@ -2,6 +2,7 @@ package props
 
 import (
 	"fmt"
+	"sync"
 
 	age "github.com/craterdog/go-collection-framework/v4/agent"
 	col "github.com/craterdog/go-collection-framework/v4/collection"
@@ -71,29 +72,41 @@ func init() {
 		}
 		return 0
 	}
-	// nested sets
-	mk := func(vs ...int) col.SetLike[int] { return col.Set[int](seq.Notation).MakeFromArray(vs) }
-	nested := []col.SetLike[int]{mk(), mk(0), mk(1), mk(0, 1), mk(2), mk(0, 2), mk(0, 1, 2)}
-	nd := seq.Dom[col.SetLike[int]]{
-		Name: "SetLike[int]",
-		Gen:  func(r *core.Rng) col.SetLike[int] { return nested[r.Intn(len(nested))] },
-		Eq:   func(a, b col.SetLike[int]) bool { return fmt.Sprint(a.AsArray()) == fmt.Sprint(b.AsArray()) },
-		Same: func(a, b col.SetLike[int]) bool { return a == b },
-		Less: func(a, b col.SetLike[int]) bool {
-			x, y := a.AsArray(), b.AsArray()
-			for i := 0; i < len(x) && i < len(y); i++ {
-				if x[i] != y[i] {
-					return x[i] < y[i]
-				}
+	// nested sets: built lazily inside the worker (no repository code may run
+	// while the binary initialises - the orchestrator must survive any tree)
+	var nstOnce sync.Once
+	var nstDom seq.SetDom[col.SetLike[int]]
+	nested := func() seq.SetDom[col.SetLike[int]] {
+		nstOnce.Do(func() {
+			mk := func(vs ...int) col.SetLike[int] { return col.Set[int](seq.Notation).MakeFromArray(vs) }
+			pool := []col.SetLike[int]{mk(), mk(0), mk(1), mk(0, 1), mk(2), mk(0, 2), mk(0, 1, 2)}
+			nd := seq.Dom[col.SetLike[int]]{
+				Name: "SetLike[int]",
+				Gen:  func(r *core.Rng) col.SetLike[int] { return pool[r.Intn(len(pool))] },
+				Eq:   func(a, b col.SetLike[int]) bool { return fmt.Sprint(a.AsArray()) == fmt.Sprint(b.AsArray()) },
+				Same: func(a, b col.SetLike[int]) bool { return a == b },
+				Less: func(a, b col.SetLike[int]) bool {
+					x, y := a.AsArray(), b.AsArray()
+					for i := 0; i < len(x) && i < len(y); i++ {
+						if x[i] != y[i] {
+							return x[i] < y[i]
+						}
+					}
+					return len(x) < len(y)
+				},
+				Str: func(v col.SetLike[int]) string { return fmt.Sprint(v.AsArray()) },
 			}
-			return len(x) < len(y)
-		},
-		Str: func(v col.SetLike[int]) string { return fmt.Sprint(v.AsArray()) },
+			// two extra instances with equal content but different identity
+			univ := append([]col.SetLike[int]{}, pool...)
+			univ = append(univ, mk(0, 1), mk(2))
+			nstDom = seq.SetDom[col.SetLike[int]]{Dom: nd, Universe: univ}
+		})
+		return nstDom
 	}
-	// two extra instances with equal content but different identity
-	nestedU := append([]col.SetLike[int]{}, nested...)
-	nestedU = append(nestedU, mk(0, 1), mk(2))
-	nst := seq.SetDom[col.SetLike[int]]{Dom: nd, Universe: nestedU}
+	nestedEng := func(collator string, quick, thorough int) *core.Engine {
+		return &core.Engine{Name: "set/SetLike[int]/" + collator, Count: core.FixedCount(quick, thorough),
+			Run: func(c *core.Ctx, idx int) { seq.RunC02History(c, nested(), collator, nil) }}
+	}
 
 	p.Engines = []*core.Engine{
 		c02eng(intU, "default", nil, 30000, 600000),
@@ -114,8 +127,8 @@ func init() {
 		c02eng(anyI, "default", nil, 8000, 150000),
 		c02eng(anyS, "default", nil, 8000, 150000),
 		c02eng(anyM, "default", repoRank, 8000, 150000),
-		c02eng(nst, "default", nil, 8000, 150000),
-		c02eng(nst, "reversed", nil, 4000, 80000),
+		nestedEng("default", 8000, 150000),
+		nestedEng("reversed", 4000, 80000),
 	}
 	for _, collator := range []string{"default", "reversed"} {
 		collator := collator
